@@ -36,6 +36,17 @@ pub struct Walrus {
     pub(super) fsync_schedule: FsyncSchedule,
 }
 
+impl Drop for Walrus {
+    fn drop(&mut self) {
+        // Markers are persisted by a background thread that stops, without writing, as soon as
+        // the instance is gone; write what it may not have written yet, in the dropping thread,
+        // so that a mark survives a shutdown right after the call that made it.
+        if let Err(err) = self.topic_clean_tracker.flush_all() {
+            debug_print!("[clean] final marker flush failed: {}", err);
+        }
+    }
+}
+
 impl Walrus {
     pub fn new() -> std::io::Result<Self> {
         Self::with_consistency(ReadConsistency::StrictlyAtOnce)
